@@ -379,3 +379,39 @@ def rule_tablecopy(P) -> RuleResult:
     else:
         res.ok({'site': cf.fq, 'table': 'self.table.update(open=, close=, clear=)'})
     return res
+
+
+# ----------------------------------------------------------------------
+# R-SUBQ1D (C08): x IN (subquery) is membership in the subquery's single output column
+
+def rule_subq1d(P) -> RuleResult:
+    res = RuleResult('R-SUBQ1D')
+    ci = P.cls('beanquery.query_compile', 'EvalConstantSubquery1D')
+    call = ci.methods.get('__call__')
+    if call is None:
+        raise AnalysisError('anchor vanished: EvalConstantSubquery1D.__call__')
+    n0 = len(res.findings)
+    ex = [n for n in ast.walk(call.node) if isinstance(n, ast.Call) and unparse(n.func).endswith('execute_query')]
+    if len(ex) != 1 or [unparse(a) for a in ex[0].args] != ['self.subquery']:
+        res.fail(call.fq, 'subq1d:source', 'the IN-subquery value must be the result of executing that subquery', loc(call))
+    comps = [n for n in ast.walk(call.node) if isinstance(n, (ast.ListComp, ast.SetComp, ast.GeneratorExp))]
+    if len(comps) != 1:
+        raise AnalysisError(f'{call.fq}: construction of the membership list not understood')
+    c = comps[0]
+    g = c.generators[0]
+    if g.ifs:
+        res.fail(call.fq, 'subq1d:filtered', f'the membership collection drops rows of the subquery result (`if {unparse(g.ifs[0])}`): '
+                 f'a subquery whose rows are all dropped is then mistaken for one that returned no row (NULL instead of FALSE/TRUE)',
+                 loc(call, c))
+    if unparse(c.elt) != f'{unparse(g.target)}[0]':
+        res.fail(call.fq, 'subq1d:column', f'membership is tested against the single output column (row[0]); found `{unparse(c.elt)}`', loc(call, c))
+    # empty result -> NULL; cached on the node (one evaluation per compiled statement)
+    src = unparse(call.node)
+    stores = [n for n in ast.walk(call.node) if isinstance(n, ast.Assign) and unparse(n.targets[0]) == 'self.value']
+    if len(stores) != 1 or not isinstance(stores[0].value, ast.IfExp) or not is_none(stores[0].value.orelse):
+        res.fail(call.fq, 'subq1d:empty', 'a subquery returning no row makes IN / NOT IN NULL: value if value else None', loc(call))
+    if 'self.value is MARKER' not in src:
+        res.info('caching shape not recognised (not judged)')
+    if len(res.findings) == n0:
+        res.ok({'node': ci.fq, 'membership_in': 'row[0] of every result row', 'empty': 'NULL', 'cached': 'on the node instance'})
+    return res
